@@ -52,7 +52,18 @@ type Account struct {
 	Pub     cryptotypes.PubKey
 	Addr    sdk.AccAddress
 	ValAddr sdk.ValAddress
+	// ConsPub: the consensus key of a validator when it differs from its operator key (Config.DistinctConsKeys)
+	ConsPub cryptotypes.PubKey
 }
+
+// ConsKey / ConsAddress: the key a validator signs blocks with and the address votes carry.
+func (a Account) ConsKey() cryptotypes.PubKey {
+	if a.ConsPub != nil {
+		return a.ConsPub
+	}
+	return a.Pub
+}
+func (a Account) ConsAddress() []byte { return a.ConsKey().Address().Bytes() }
 
 func NewAccount(name string) Account {
 	priv := secp256k1.GenPrivKeyFromSecret([]byte("verif-" + name))
@@ -79,6 +90,9 @@ type Config struct {
 	NumTreasury int
 	DataSources []DataSourceSpec
 	ExtraDenoms []string // extra denoms minted to every account (same amount as uband balance)
+	// DistinctConsKeys: validators get a consensus key of their own (as on a live chain), so that operator address and
+	// consensus address are different byte strings
+	DistinctConsKeys bool
 	GenesisTime time.Time
 	// Mutate lets a family adjust module genesis (params etc.) before InitChain.
 	Mutate func(app *band.BandApp, gs band.GenesisState)
@@ -255,6 +269,9 @@ func New(cfg Config) *World {
 	for i := range cfg.ValTokens {
 		a := NewAccount(fmt.Sprintf("val%d", i+1))
 		a.Name = fmt.Sprintf("v%d", i+1)
+		if cfg.DistinctConsKeys {
+			a.ConsPub = secp256k1.GenPrivKeyFromSecret([]byte(fmt.Sprintf("verif-cons-val%d", i+1))).PubKey()
+		}
 		w.Vals = append(w.Vals, a)
 		w.name(a)
 	}
@@ -306,7 +323,7 @@ func New(cfg Config) *World {
 	}
 	hdr := cmtproto.Header{
 		ChainID: cfg.ChainID, Height: 1, Time: cfg.GenesisTime,
-		ProposerAddress: w.Vals[0].Pub.Address().Bytes(),
+		ProposerAddress: w.Vals[0].ConsAddress(),
 	}
 	// A failure of block 1 (as opposed to a genesis that InitChain refuses) is reported with a typed
 	// panic value so that a caller can tell the two apart (fam_block does).
@@ -407,7 +424,7 @@ func (w *World) genesis() band.GenesisState {
 	var delegations []stakingtypes.Delegation
 	bonded := math.ZeroInt()
 	for i, val := range w.Vals {
-		pkAny, _ := codectypes.NewAnyWithValue(val.Pub)
+		pkAny, _ := codectypes.NewAnyWithValue(val.ConsKey())
 		tokens := math.NewInt(cfg.ValTokens[i])
 		v := stakingtypes.Validator{
 			OperatorAddress: val.ValAddr.String(), ConsensusPubkey: pkAny, Jailed: false,
